@@ -30,6 +30,7 @@ import (
 	"sync/atomic"
 	"syscall"
 	"time"
+	"unsafe"
 
 	"github.com/glowlabs-org/gca-backend/server"
 
@@ -55,7 +56,8 @@ func main() {
 			"an authorization with identical content but a different valid GCA signature may be treated as a duplicate (200, nothing changes) or as a conflict (non-200, id banned, evidence appended): both accepted and counted",
 			"a valid authorization for a new id that carries the key of a banned (no longer registered) device, and one that carries the key of another registered device, may be accepted or refused; in both cases every other device must stay untouched",
 			"reports in this check stay inside the capacity domain of C02 (capacity < 2^64/135 for reporting devices)",
-			"fault model for the persist step: ENOENT on opening equipment-authorizations.dat (renamed away; no O_CREATE in the server) and ENOSPC on the write (the name is a symlink to /dev/full for the one request); EIO, short writes and close errors are not injected",
+			"fault model for the persist step: ENOENT on opening equipment-authorizations.dat (renamed away; no O_CREATE in the server) and ENOSPC on the write (the name is a symlink to /dev/full for the one request); a write that fails with EPERM while open and ftruncate succeed (sealed memfd behind a symlink, content copied back afterwards); EIO, short writes and close errors are not injected",
+			"records whose GCA signature ends in one (thorough: sometimes two) zero byte(s) are produced by varying ProtocolFee and are the last record of the file at a restart",
 			"HTTP status classes asserted: 200 for a valid new authorization and for an exact duplicate; non-200 for bad signatures, conflicts and banned ids",
 		},
 		Plan:          plan,
@@ -117,7 +119,7 @@ func post(c *ev.Check, outs []*run.Outcome) {
 	}
 	for _, k := range []string{"obs.new_accepted", "obs.duplicate_ok", "obs.ban", "obs.badsig_refused", "obs.banned_id_refused", "obs.report_accepted", "obs.banned_report_ignored",
 		"obs.restart", "obs.restart_with_banned_reports_on_disk", "obs.conflict_with_other_registered_key", "obs.float_roundtrip_special", "check_invariants_calls", "surface.equipment", "surface.sync", "surface.recent", "surface.stats",
-		"surface.archived_week", "keyreuse.probes", "fault.conflict", "fault.new", "fault.duplicate", "obs.fault_then_restart", "obs.fault_retry_bans", "conc.identical_rounds", "conc.conflict_rounds", "conc.fifo_rounds", "fault.mode_enoent", "fault.mode_enospc",
+		"surface.archived_week", "keyreuse.probes", "fault.conflict", "fault.new", "fault.duplicate", "obs.fault_then_restart", "obs.fault_retry_bans", "conc.identical_rounds", "conc.conflict_rounds", "conc.fifo_rounds", "fault.mode_enoent", "fault.mode_enospc", "fault.mode_sealed", "ground.new", "ground.conflict",
 		"keyreuse.owner_id_class_0", "keyreuse.owner_id_class_1", "keyreuse.owner_id_class_2", "keyreuse.in_sequences"} {
 		c.Require(k, 1)
 	}
@@ -1232,12 +1234,18 @@ func (w *world) opBannedSubmit() {
 func (w *world) opFault(kind string, d *dev, restartAfter, retry bool) {
 	// two ways to fail the persist step: the file cannot be opened (renamed away: ENOENT), or it opens but the
 	// write fails (the name is a symlink to /dev/full for this one request: ENOSPC)
+	// or open and ftruncate succeed but the write fails (the name is a symlink to a memfd that holds the file's
+	// bytes and is sealed against growing; its content is copied back afterwards: disk = what the server did to "its file")
 	mode := "enoent"
-	if w.rng.Intn(2) == 0 {
+	switch w.rng.Intn(3) {
+	case 0:
 		if _, err := os.Stat("/dev/full"); err == nil {
 			mode = "enospc"
 		}
+	case 1:
+		mode = "sealed"
 	}
+	memfd := -1
 	var a refenc.Auth
 	switch kind {
 	case "conflict", "duplicate":
@@ -1265,6 +1273,22 @@ func (w *world) opFault(kind string, d *dev, restartAfter, retry bool) {
 		w.stop = true
 		return
 	}
+	if mode == "sealed" {
+		old, _ := os.ReadFile(away)
+		fd, err := sealedMemfd(old)
+		if err != nil {
+			mode = "enoent" // no memfd support here: plain ENOENT instead
+		} else {
+			memfd = fd
+			if err := os.Symlink(fmt.Sprintf("/proc/self/fd/%d", fd), path); err != nil {
+				syscall.Close(fd)
+				os.Rename(away, path)
+				w.r.Inconc("fault injection: " + err.Error())
+				w.stop = true
+				return
+			}
+		}
+	}
 	if mode == "enospc" {
 		if err := os.Symlink("/dev/full", path); err != nil {
 			os.Rename(away, path)
@@ -1276,6 +1300,18 @@ func (w *world) opFault(kind string, d *dev, restartAfter, retry bool) {
 	st, ok := w.authorize(a)
 	if fi, err := os.Lstat(path); err == nil && fi.Mode()&os.ModeSymlink != 0 {
 		os.Remove(path)
+	}
+	if memfd >= 0 {
+		// what the server left in "its file" becomes the real file
+		content, err := readAllFd(memfd)
+		syscall.Close(memfd)
+		if err != nil {
+			w.r.Inconc("fault injection (memfd read): " + err.Error())
+			w.stop = true
+			os.Rename(away, path)
+			return
+		}
+		os.WriteFile(away, content, 0644)
 	}
 	// put the file back; should the server have created a new one, keep its records behind the old ones
 	if created, err := os.ReadFile(path); err == nil {
@@ -1307,6 +1343,13 @@ func (w *world) opFault(kind string, d *dev, restartAfter, retry bool) {
 	}
 	fileNow := w.ReadFile("equipment-authorizations.dat")
 	fileChanged := !bytes.Equal(fileNow, w.file)
+	if len(fileNow) < len(w.file) || !bytes.Equal(fileNow[:len(w.file)], w.file) {
+		w.r.Violationf("fault:authorization-file-shrank", w.replay(), "%s: equipment-authorizations.dat had %d bytes before the request and has %d afterwards (first difference at %d): records that were accepted earlier are gone from disk",
+			what, len(w.file), len(fileNow), firstDiff(fileNow, w.file))
+		w.stop = true
+		w.checkpoint()
+		return
+	}
 	switch {
 	case len(changed) == 0 && !fileChanged:
 		// refused (or duplicate) without any effect
@@ -1380,6 +1423,127 @@ func (w *world) opFault(kind string, d *dev, restartAfter, retry bool) {
 		w.r.Count("obs.fault_retry_bans", 1)
 		w.observe(expect{kind: "ban", id: d.id, what: fmt.Sprintf("retry of the conflicting authorization for device %d after the fault (status %d)", d.id, st2), class: "conflict"})
 	}
+}
+
+// sealedMemfd returns a memfd that holds content and cannot grow (writes beyond its size fail, truncation works).
+func sealedMemfd(content []byte) (int, error) {
+	const sysMemfdCreate, mfdAllowSealing, fAddSeals, fSealGrow = 319, 2, 1033, 4
+	name := []byte("authfile\x00")
+	fd, _, e := syscall.Syscall(sysMemfdCreate, uintptr(unsafe.Pointer(&name[0])), mfdAllowSealing, 0)
+	if e != 0 {
+		return -1, e
+	}
+	for off := 0; off < len(content); {
+		n, err := syscall.Pwrite(int(fd), content[off:], int64(off))
+		if err != nil {
+			syscall.Close(int(fd))
+			return -1, err
+		}
+		off += n
+	}
+	if _, _, e := syscall.Syscall(syscall.SYS_FCNTL, fd, fAddSeals, fSealGrow); e != 0 {
+		syscall.Close(int(fd))
+		return -1, e
+	}
+	return int(fd), nil
+}
+
+func readAllFd(fd int) ([]byte, error) {
+	var out []byte
+	buf := make([]byte, 1<<16)
+	for {
+		n, err := syscall.Pread(fd, buf, int64(len(out)))
+		if err != nil {
+			return nil, err
+		}
+		if n == 0 {
+			return out, nil
+		}
+		out = append(out, buf[:n]...)
+	}
+}
+
+// grind varies ProtocolFee until the deterministic GCA signature ends in the wanted number of zero bytes (a
+// record ends in its signature: such a record at the end of the file must not be mistaken for a torn append).
+func (w *world) grind(a refenc.Auth, zeros int) refenc.Auth {
+	for {
+		a.Fee++
+		a = a.Signed(w.GCA.Priv)
+		ok := true
+		for i := 0; i < zeros; i++ {
+			if a.Sig[63-i] != 0 {
+				ok = false
+			}
+		}
+		if ok {
+			return a
+		}
+	}
+}
+
+// opGround: a new authorization (or conflict evidence) whose last byte(s) are zero is the LAST record of the file when the server restarts.
+func (w *world) opGround(kind string, zeros int) {
+	switch kind {
+	case "new":
+		k := refenc.GenKey(w.rng)
+		id := w.freshID()
+		a := w.mkAuth(id, k.Pub, true)
+		if zeros >= 2 {
+			w.restartAround(func() { a = w.grind(a, zeros) })
+			if w.stop {
+				return
+			}
+		} else {
+			a = w.grind(a, zeros)
+		}
+		w.op("authorize new (signature ends in %d zero byte(s)) id=%d auth=%x", zeros, id, a.Bytes())
+		st, ok := w.authorize(a)
+		if !ok {
+			return
+		}
+		d := &dev{id: id, key: k, auth: a, state: stAuthorized, slots: map[uint32]*slotM{}, reporting: true}
+		x := expect{kind: "new", id: id, what: fmt.Sprintf("valid new authorization for id %d whose signature ends in %d zero byte(s)", id, zeros), class: "new"}
+		if st != 200 {
+			w.r.Violationf("valid-authorization-refused", w.replay(), "a GCA-signed authorization for the unused id %d (signature ending in zero bytes) was answered with status %d", id, st)
+			d.state, x.kind = stNever, "none"
+		} else {
+			w.file = append(w.file, a.Bytes()...)
+			w.r.Count("obs.new_accepted", 1)
+		}
+		w.addDev(d)
+		w.observe(x)
+	case "conflict":
+		d := w.pick(stAuthorized)
+		if d == nil {
+			return
+		}
+		a := d.auth
+		a.Debt ^= 1 << uint(w.rng.Intn(64))
+		if zeros >= 2 {
+			w.restartAround(func() { a = w.grind(a, zeros) })
+			if w.stop {
+				return
+			}
+		} else {
+			a = w.grind(a, zeros)
+		}
+		w.op("authorize conflict (evidence signature ends in %d zero byte(s)) id=%d auth=%x", zeros, d.id, a.Bytes())
+		st, ok := w.authorize(a)
+		if !ok {
+			return
+		}
+		if st == 200 {
+			w.r.Violationf("conflict-answered-200", w.replay(), "a second, different authorization for device %d was answered with 200", d.id)
+		}
+		w.ban(d, a)
+		w.observe(expect{kind: "ban", id: d.id, what: fmt.Sprintf("conflicting authorization for device %d whose signature ends in %d zero byte(s) (status %d)", d.id, zeros, st), class: "conflict"})
+	}
+	if w.stop {
+		return
+	}
+	w.r.Count("ground."+kind, 1)
+	w.r.Nontrivial(fmt.Sprintf("ground/%s/%d%s", kind, zeros, w.ctx(nil)))
+	w.opRestart() // the record is the last one in the file right now
 }
 
 // usableSlot returns a slot inside both windows.
@@ -1482,7 +1646,11 @@ func (d *dev) auth2report(slot uint32, power uint64) refenc.Report {
 }
 
 // opRestart: the restarted server equals the model.
-func (w *world) opRestart() {
+func (w *world) opRestart() { w.restartAround(nil) }
+
+// restartAround stops the server, runs pause (long harness-side computations must not eat into the 120 s
+// life of a test-mode instance) and starts it again.
+func (w *world) restartAround(pause func()) {
 	bannedOnDisk := false
 	for _, d := range w.sorted(stBanned) {
 		if d.onDisk {
@@ -1490,7 +1658,14 @@ func (w *world) opRestart() {
 		}
 	}
 	w.op("restart (banned devices with reports on disk: %v)", bannedOnDisk)
-	if err := w.Restart(); err != nil {
+	err := w.Close()
+	if err == nil {
+		if pause != nil {
+			pause()
+		}
+		err = w.Start()
+	}
+	if err != nil {
 		key := "restart-failed"
 		if bannedOnDisk {
 			key = "restart-failed:banned-device-has-reports-on-disk"
@@ -1571,6 +1746,14 @@ func (w *world) finish() {
 	os.RemoveAll(w.Dir)
 }
 
+// zerosFor: one trailing zero byte (about 256 signatures); in the thorough tier every 100th case asks for two (about 65 000).
+func zerosFor(tier string, n int) int {
+	if tier == "thorough" && n%100 == 7 {
+		return 2
+	}
+	return 1
+}
+
 func runSequence(b run.Batch, r *ev.Result, rng *rand.Rand, n int) bool {
 	w := newWorld(b, r, rng, n)
 	if w == nil {
@@ -1606,6 +1789,9 @@ func runSequence(b run.Batch, r *ev.Result, rng *rand.Rand, n int) bool {
 		case p < 12:
 			if len(w.sorted(stAuthorized)) < 7 {
 				w.opNew(rng.Intn(3) != 0)
+				if !w.stop && rng.Intn(4) == 0 {
+					w.opRestart() // the new device's record is the last one in the file
+				}
 			}
 		case p < 14:
 			w.opNewWithBannedKey()
@@ -1621,6 +1807,9 @@ func runSequence(b run.Batch, r *ev.Result, rng *rand.Rand, n int) bool {
 			f := fieldNames[rng.Intn(len(fieldNames))]
 			if len(w.sorted(stAuthorized)) >= 2 || rng.Intn(3) == 0 {
 				w.opConflict(f, []string{"fresh", "other-registered", "other-registered", "banned", "gca"}[rng.Intn(5)], nil)
+				if !w.stop && rng.Intn(4) == 0 {
+					w.opRestart() // the evidence record is the last one in the file
+				}
 			}
 		case p < 68:
 			w.opBannedSubmit()
@@ -1674,6 +1863,10 @@ func runSequence(b run.Batch, r *ev.Result, rng *rand.Rand, n int) bool {
 		func() { w.opNew(true) },
 		func() { w.opNewWithRegisteredKey() },
 		func() { w.opReport(stAuthorized) },
+		func() { w.opGround("new", zerosFor(b.Tier, n)) },
+		func() { w.opReport(stAuthorized) },
+		func() { w.opGround("conflict", zerosFor(b.Tier, n+1)) },
+		func() { w.opBannedSubmit() },
 	}
 	for _, s := range steps {
 		if w.stop {
